@@ -49,6 +49,8 @@ def oracle(c, res, ccname):
     decays = [s[1] for s in st if s[0] == "Decay"]
     copies = [s[1] for s in st if s[0] == "CopyDecay"]
     base = set(decays) | {s[1] for s in st if s[0] == "CopyDecay" and s[2] in decays}
+    if any(s[0] == "CopyDecay" and s[1] in decays for s in st):
+        return None          # a copy shadowed by a Decay block of the same name: outside this simple oracle
     for s in st:
         if s[0] != "CDecay":
             continue
@@ -130,9 +132,12 @@ def gen_cases(rng, tier, evt, selfconj):
                 continue
             stmts2.append(s)
         stmts = stmts2
-        if rng.random() < 0.3 and mothers:
+        if rng.random() < 0.4 and mothers:
             src = rng.choice(mothers)[0]
             stmts.append(["CopyDecay", "MyCopyOf", src])
+            if rng.random() < 0.5:
+                stmts.append(["ChargeConj", "MyCopyOf", "MyantiCopyOf"] if rng.random() < 0.5 else ["ChargeConj", "MyantiCopyOf", "MyCopyOf"])
+                stmts.append(["CDecay", "MyantiCopyOf"])
         if rng.random() < 0.2:
             stmts.append(["CDecay", "MyNoSource"])
         rng.shuffle(stmts)
